@@ -1154,6 +1154,29 @@ fn gen_lo<W: Write>(snps: bool, r: &mut Rng, thorough: bool, out: &mut W) {
                 seqs.push(s(&sq));
             }
             writeln!(out, "lo_mid k={k} seqs={}", seqs.join(",")).unwrap();
+            // de-replication: groups over a small pool of k-mers and their reverse complements,
+            // no two with the same (total length, entry) -- their order is a hash-map order in the Rust
+            let kg = 2 + r.below(30);
+            let maskv: u128 = (1u128 << (2 * kg)) - 1;
+            let mut pool: Vec<u128> = Vec::new();
+            for _ in 0..(2 + r.below(5)) {
+                let x = ((r.next() as u128) << 64 | r.next() as u128) & maskv;
+                pool.push(x);
+                pool.push(ska::ska_dict::bit_encoding::UInt::rev_comp(x, kg));
+            }
+            let ng = 1 + r.below(8);
+            let mut groups: Vec<(u128, u128, usize)> = Vec::new();
+            for _ in 0..ng {
+                let e = *r.pick(&pool);
+                let x = *r.pick(&pool);
+                let l = 2 * kg + 1 + r.below(4);
+                if groups.iter().any(|g| g.0 == e && (g.2 == l || g.1 == x)) {
+                    continue;
+                }
+                groups.push((e, x, l));
+            }
+            let gs: Vec<String> = groups.iter().map(|g| format!("{}:{}:{}", g.0, g.1, g.2)).collect();
+            writeln!(out, "lo_derep k={kg} groups={}", gs.join(",")).unwrap();
         }
     }
 }
